@@ -58,7 +58,9 @@ EncClauses(cfg, items, s, r) ==
             <<"NoCollateralLoss", (cfg.exact /\ s.none = 0) => s.emitted = full>> >>
        [] r.r = "pending" ->
          << <<"NoPendingAfterEnd", s.tr = 0 /\ s.err = 0 /\ s.none = 0>>,
-            <<"EosOnlyAfterStatus", ~r.eos>> >>
+            <<"EosOnlyAfterStatus", ~r.eos>>,
+            \* Pending without a wake-up arranged during that poll: nobody will ever poll the body again
+            <<"PendingArrangesWakeup", ("woken" \in DOMAIN r) => r.woken>> >>
        [] OTHER -> << <<"KnownResult", FALSE>> >>
 EncStep(s, r) ==
   CASE r.r = "data"     -> [s EXCEPT !.emitted = @ \o r.bytes]
@@ -95,7 +97,8 @@ DecClauses(view, tail, s, r) ==
     [] r.r = "end" ->
          << <<"NoSilentFailure", s.phase = "streaming" => ~MustFail(view, tail)>>,
             <<"NoMessageLost", s.phase = "streaming" => s.k = NOk(view)>> >>
-    [] r.r = "pending" -> << <<"TerminalIsFinal", s.phase = "streaming">> >>
+    [] r.r = "pending" -> << <<"TerminalIsFinal", s.phase = "streaming">>,
+                             <<"PendingArrangesWakeup", ("woken" \in DOMAIN r) => r.woken>> >>
     [] OTHER -> << <<"EveryPollCompletes", FALSE>> >>
 DecStep(s, r) ==
   CASE r.r = "msg" -> [s EXCEPT !.k = @ + 1]
